@@ -156,13 +156,13 @@ func (t *fnTrans) contractReturn(in *ssa.Return, rs []string) {
 	t.methodInvReturn(in)
 	// objects with lock-guarded (foreign) invariants that were allocated here must satisfy them
 	// when the function returns, whoever ends up holding them
-	for _, b := range t.fn.Blocks {
+	for _, b := range t.allBlocks() {
 		for _, bi := range b.Instrs {
 			a, ok := bi.(*ssa.Alloc)
 			if !ok || !a.Heap {
 				continue
 			}
-			if _, done := t.vals[a]; !done || !(b == in.Block() || b.Dominates(in.Block())) {
+			if _, done := t.vals[a]; !done || !t.dominates(b, in.Block()) {
 				continue
 			}
 			sa := t.structAnnOf(a.Type())
